@@ -38,6 +38,34 @@ def gen_cases(ctx, n, sizes):
         yield rows, cols, ops, probes, rng.random() < 0.25, rng.random() < 0.2
 
 
+def refused_calls(ctx, screen_mod, n):
+    """a call the screen refuses (it raises: here bytes handed to a screen created with encoding=None, which accepts text only)
+    changes nothing at all: the documented effect of an operation is all it may do, and a refused one has none"""
+    rng = ctx.rng
+    tried = 0
+    for it in range(n):
+        rows, cols = rng.choice([(2, 3), (4, 5), (3, 7)])
+        s = screen_mod.screen(rows, cols, encoding=None)
+        for name, args in [S.gen_op(rng, rows, cols, 'abcXYZ') for _ in range(rng.randint(0, 8))]:
+            getattr(s, name)(*args)
+        vals = S.arg_values(rows, cols)
+        v = lambda: rng.choice(vals)
+        name, args = rng.choice([('put', (b'q',)), ('put_abs', (v(), v(), b'q')), ('insert', (b'q',)), ('insert_abs', (v(), v(), b'q')),
+                                 ('fill', (b'q',)), ('fill_region', (v(), v(), v(), v(), b'q'))])
+        before = S.snapshot(s)
+        try:
+            getattr(s, name)(*args)
+        except Exception:
+            tried += 1
+            after = S.snapshot(s)
+            if after != before:
+                f = next(i for i in range(len(before)) if before[i] != after[i])
+                ctx.hit('C19/refused-call', 'screen %dx%d (text only): %s%r raised, yet the screen changed: field %d was %r and is %r'
+                        % (rows, cols, name, args, f, before[f], after[f]), {'rows': rows, 'cols': cols, 'op': name, 'args': repr(args)})
+                return
+    ctx.oracle_stats['refused_calls'] = tried
+
+
 def run(ctx):
     common.preflight()
     import warnings
@@ -85,6 +113,7 @@ def run(ctx):
             inp = '(%s, %s, %s, %s)' % (cZ(rows), cZ(cols), clist([S.coq_op(o) for o in ops]),
                                         clist(['(%s, %s, %s, %s)' % tuple(cZ(x) for x in p) for p in probes]))
             cases.append((inp, [[sn[:7] for sn in snaps[:-1]] + [snaps[-1]], pr], {'rows': rows, 'cols': cols, 'ops': ops, 'probes': probes}))
+    refused_calls(ctx, screen_mod, 3000 if thorough else 400)
     ctx.oracle_stats.update({'sequences_vs_reference_grid': 40000 if thorough else 5000, 'op_histogram': stats})
     if os.path.exists(os.path.join(common.COQ, 'Screen/Run.vo')):
         ctx.run_cases('screen-ops', ['Screen.Model', 'Screen.Run'], 'run_screen', 'Z * Z * list sop * list (Z * Z * Z * Z)', cases, shard=200)
